@@ -24,7 +24,7 @@ THEOREMS = [
     "C06.is_empty_eq",
     # sequence_equal
     "C06.seqeq_eq_spec", "C06.sequence_equal_correct", "C06.seqeq_true_only_when_both_done", "C06.seqeq_false_at_mismatch",
-    "C06.seqeq_error", "C06.seqeq_lag_irrelevant", "C06.seqeq_asymmetric_spec", "C06.to_set_unhashable",
+    "C06.seqeq_error", "C06.seqeq_lag_irrelevant", "C06.seqeq_asymmetric_spec", "C06.to_set_hashing_eq", "C06.to_dict_hashing_eq", "C06.to_set_unhashable_asis",
 ]
 RULE = ("per operator: a hot TestScheduler timeline (0..8 elements from a small domain with duplicates and falsy values, times with ties, "
         "ending completed/error/open, 20% with notifications after the terminal) or the same list pushed synchronously inside subscribe "
@@ -117,12 +117,10 @@ def gen_single(rng, op):
     if op in ("to_set", "contains"):
         dom = VALS_EQ
     if op == "to_set" and rng.random() < 0.15:
-        dom = VALS_EQ[:6] + [[], [1]]  # unhashable elements: TypeError out of s.add escapes to the emitter (modelled as it is)
+        dom = VALS_EQ[:6] + [[], [1]]  # unhashable elements: set(xs) raises TypeError; to_set delivers it as on_error (as repaired)
         c["unhashable"] = True
     src, sub = gen_src(rng, dom)
     c["src"] = src
-    if c.get("unhashable"):
-        c["mode"] = "sync"  # an emitter that survives the exception (a TestScheduler run does not)
     praise = rng.choice([0, 0, 0.1, 0.3])
     if op in ("scan", "reduce"):
         has_seed = rng.random() < 0.6
@@ -160,9 +158,8 @@ def gen_single(rng, op):
     if op == "to_dict":
         kres = rng.sample([0, 1, False, True, "a", None, 0.0, (1,), ""], rng.choice([1, 2, 3]))
         if rng.random() < 0.15:
-            kres = kres + [[]]  # unhashable key: TypeError out of `m[key] = element` escapes to the emitter (modelled as it is)
+            kres = kres + [[]]  # unhashable key: the dict comprehension raises TypeError; to_dict delivers it as on_error (as repaired)
             c["unhashable"] = True
-            c["mode"] = "sync"
         c["key"] = tab1(rng, sub, kres, praise, "key")
         if rng.random() < 0.5:
             c["elem"] = tab1(rng, sub, RES, praise, "elem")
@@ -633,11 +630,6 @@ def expected_seq(case):
 
 
 def oracle(case, out):
-    if case.get("unhashable") and all(e == "TypeError" for e in out["escaped"]):
-        # set(xs) / the dict comprehension raise TypeError on unhashable values; the operators raise it into the emitter and skip
-        # the element (C06.to_set_unhashable) - recorded deviation, compared with the model only
-        seq = [n for _, n in out["out"]]
-        return f"ill-formed output {seq}" if any(n[0] in ("E", "C") for n in seq[:-1]) else None
     if out["escaped"]:
         return f"exception escaped to the emitter: {out['escaped']}"
     exp = expected_seq(case) if case["op"] == "sequence_equal" else expected_single(case)
@@ -675,7 +667,7 @@ def bucket(case, out):
     if any(k in case for k in ("pred", "key", "cmp", "acc")):
         yield "with-callback"
     if case.get("unhashable"):
-        yield "unhashable:" + ("escaped" if out["escaped"] else "not-hit")
+        yield "unhashable:" + ("escaped" if out["escaped"] else ("TypeError" if out["out"] and out["out"][-1][1] == ["E", "TypeError"] else "not-hit"))
 
 
 def shrink(case):
@@ -702,8 +694,9 @@ LEVEL_NOTE = ("Theorems: scan, reduce(seed / no seed), count(+pred), sum(+key), 
               "arbitrary (raising) key/comparer, max_by/min_by/max/min for comparers induced by a total preorder (non-raising), to_list, to_set, to_dict "
               "(+last-wins lookup), first/last/single(+_or_default, +pred), some(+pred), all, contains, is_empty, sequence_equal (spec theorems for a total symmetric "
               "comparer; error forwarding seqeq_error; lag-irrelevance for arbitrary comparers). seqeq_asymmetric_spec states what the code computes for an arbitrary total comparer (earlier-arrived element is the first argument); "
-              "to_set_unhashable states the as-is behaviour on unhashable elements/keys (TypeError raised into the emitter, element skipped) - a recorded "
-              "deviation from set(xs)/dict comprehension, oracle-skipped. Correspondence-only: min/max/min_by/max_by with arbitrary "
+              "to_set_hashing_eq / to_dict_hashing_eq: unhashable elements/keys end the sequence with TypeError at that element like set(xs) / the dict "
+              "comprehension (models as repaired by fixes/C06_toset_todict_unhashable.patch; to_set_unhashable_asis is the witness of the pinned behaviour: "
+              "TypeError raised into the emitter, element skipped). Correspondence-only: min/max/min_by/max_by with arbitrary "
               "(non-preorder) or raising comparers beyond the fold identity, sequence_equal with an asymmetric comparer (the code passes the queued "
               "value first on both sides, so the result then depends on the interleaving), float inputs. Composition `⨾` is exact when the downstream "
               "operator's handlers do not raise (proved in C09 for this family).")
